@@ -11,6 +11,8 @@
 #define _GNU_SOURCE
 #include <stdio.h>
 #include <sys/time.h>
+#include <sys/mman.h>
+#include <time.h>
 #include <stdlib.h>
 #include <string.h>
 #include <stdarg.h>
@@ -157,6 +159,7 @@ static void split(char *line) { ntok = 0; char *s = strtok(line, " \t\r\n"); whi
 
 /* watchdog on the CPU time of this process (robust on a loaded machine): no library call needs more than a few ms */
 static void arm_watchdog(void) { struct itimerval it; memset(&it, 0, sizeof it); it.it_value.tv_sec = 4; setitimer(ITIMER_VIRTUAL, &it, NULL); }
+static void arm_watchdog_long(void) { struct itimerval it; memset(&it, 0, sizeof it); it.it_value.tv_sec = 30; setitimer(ITIMER_VIRTUAL, &it, NULL); }
 static void on_alarm(int sig) { (void)sig; static const char m[] = "TIMEOUT: a library call did not return within the watchdog limit\n"; if (write(2, m, sizeof m - 1)) {} _exit(97); }
 static void exec_line(const char *line_in) {
     char *line = strdup(line_in); split(line);
@@ -239,6 +242,43 @@ static void exec_line(const char *line_in) {
         fprintf(fout, "%d z%zu m", r, sz); if (dst) memout(fout, (uint8_t *)dst, cap); else fputs("NULL", fout);
         fprintf(fout, " e%d d%zu u%zu%s\n", (int)p->error_flags, binson_parser_get_depth(p), p->buffer_used, cb_left(p));
         free(dst);
+    } else if (!strcmp(op, "tsH")) {
+        /* binson_parser_to_string into a REAL destination of 2 GiB + 4 KiB (lazily mapped, never touched beyond the text):
+           a capacity that does not fit an int must behave like any other sufficient capacity */
+        NEEDP; size_t cap = ((size_t)1 << 31) + 4096;
+        char *dst = mmap(NULL, cap, PROT_READ | PROT_WRITE, MAP_PRIVATE | MAP_ANONYMOUS | MAP_NORESERVE, -1, 0);
+        if (dst == MAP_FAILED) { fprintf(fout, "skip\n"); }
+        else {
+            size_t sz = cap; int r = binson_parser_to_string(p, dst, &sz, chance(50));
+            size_t show = sz + 1 < 64 ? sz + 1 : 64; if (!r) show = 0;
+            fprintf(fout, "%d z%zu m", r, sz); memout(fout, (uint8_t *)dst, show);
+            fprintf(fout, " e%d d%zu u%zu%s\n", (int)p->error_flags, binson_parser_get_depth(p), p->buffer_used, cb_left(p));
+            munmap(dst, cap);
+        }
+    } else if (!strcmp(op, "tq") && na >= 1) {
+        /* time class of binson_parser_to_string on {"a": <n bytes>} vs {"a": <4n bytes>}: "lin" unless the larger one costs more than 10x the smaller (CPU time, best of 3) */
+        size_t n = (size_t)strtoull(arg[0], NULL, 10); double best[2] = { 1e9, 1e9 };
+        for (int which = 0; which < 2; which++) {
+            size_t len = which ? 4 * n : n;
+            struct { uint8_t *b; size_t n; } d; d.b = malloc(len + 16); d.n = 0;
+            d.b[d.n++] = 0x40; d.b[d.n++] = 0x14; d.b[d.n++] = 0x01; d.b[d.n++] = 'a';
+            if (len <= 127) { d.b[d.n++] = 0x18; d.b[d.n++] = (uint8_t)len; }
+            else if (len <= 32767) { d.b[d.n++] = 0x19; d.b[d.n++] = (uint8_t)(len & 255); d.b[d.n++] = (uint8_t)(len >> 8); }
+            else { d.b[d.n++] = 0x1a; for (int sh = 0; sh < 32; sh += 8) d.b[d.n++] = (uint8_t)((len >> sh) & 255); }
+            memset(d.b + d.n, 0x5a, len); d.n += len; d.b[d.n++] = 0x41;
+            char *dst = malloc(2 * len + 64);
+            for (int rep = 0; rep < 3; rep++) {
+                binson_parser ps; binson_state st[2]; memset(&ps, 0, sizeof ps); ps.state = st; ps.max_depth = 2;
+                if (!binson_parser_init_object(&ps, d.b, d.n)) break;
+                size_t sz = 2 * len + 64; struct timespec a, b; clock_gettime(CLOCK_PROCESS_CPUTIME_ID, &a);
+                arm_watchdog_long(); int okr = binson_parser_to_string(&ps, dst, &sz, false); if (getenv("TQDEBUG")) fprintf(stderr, "tq which=%d rep=%d ok=%d sz=%zu err=%d\n", which, rep, okr, sz, (int)ps.error_flags);
+                clock_gettime(CLOCK_PROCESS_CPUTIME_ID, &b);
+                double t = (double)(b.tv_sec - a.tv_sec) + 1e-9 * (double)(b.tv_nsec - a.tv_nsec); if (t < best[which]) best[which] = t;
+            }
+            free(dst); free(d.b);
+        }
+        /* the CPU clock of this machine may tick in steps of several ms: a smaller measurement that is below 20 ms is inconclusive */
+        if (best[0] < 0.020 || best[1] <= 10.0 * best[0] + 0.010) fprintf(fout, "lin\n"); else fprintf(fout, "superlinear %.4fs for n, %.4fs for 4n\n", best[0], best[1]);
     } else if (!strcmp(op, "pr")) {
         NEEDP; int r; size_t n; uint8_t *b = capture_print(p, &r, &n);
         fprintf(fout, "%d o", r); memout(fout, b, n); fprintf(fout, " e%d d%zu u%zu%s\n", (int)p->error_flags, binson_parser_get_depth(p), p->buffer_used, cb_left(p)); free(b);
@@ -266,6 +306,9 @@ static void exec_line(const char *line_in) {
         else if (!strcmp(op, "wr")) r = binson_write_raw(wo->w, ex, sl);
         else { char *z = malloc(sl + 1); memcpy(z, s, sl); z[sl] = 0; r = binson_write_name(wo->w, z); free(z); }
         free(s); free(ex); wobs(k, r);
+    } else if (!strcmp(op, "wrA") && na >= 2) {   /* binson_write_raw(w, destination + off, len): source aliases the destination */
+        NEEDW; size_t off = (size_t)strtoull(arg[0], NULL, 10), len = (size_t)strtoull(arg[1], NULL, 10);
+        if (wo->isnull || off + len > wo->cap) fprintf(fout, "skip\n"); else wobs(k, binson_write_raw(wo->w, wo->mem + off, len));
     } else if (!strcmp(op, "wnN")) { NEEDW; wobs(k, binson_write_name(wo->w, NULL)); }
     else if (!strcmp(op, "wrN") && na >= 1) { NEEDW; wobs(k, binson_write_raw(wo->w, NULL, (size_t)strtoull(arg[0], NULL, 10))); }
     else if (!strcmp(op, "wc")) { NEEDW; wobs(k, 1); }
@@ -279,7 +322,24 @@ static void exec_line(const char *line_in) {
         sprintf(rb, "%d", r); obs_suffix = " | "; pobs(k, rb); obs_suffix = NULL; wobs(k, r);
     } else if (!strcmp(op, "tr") && na >= 1) {
         /* transcribe parser @k (freshly reset) into a new writer @k of capacity <cap> */
-        NEEDP; free_w(k);
+        NEEDP;
+        if (na >= 2 && arg[1][0] == 'O') {
+            /* in-place compaction: the document sits <shift> bytes into a work buffer, the writer's destination is the start of
+               the same buffer; the writer trails the parser, every copy overlaps its source (dst < src). Uses objects of its own. */
+            size_t cap = (size_t)strtoull(arg[0], NULL, 10), shift = (size_t)strtoull(arg[1] + 1, NULL, 10), len = o->len;
+            uint8_t *work = malloc(len + shift + 1); memset(work, 0xAA, len + shift); memcpy(work + shift, o->buf, len);
+            binson_parser tp; binson_state *st = calloc((size_t)o->md, sizeof *st); memset(&tp, 0, sizeof tp); tp.state = st; tp.max_depth = (uint_fast8_t)o->md;
+            binson_writer tw; binson_writer_init(&tw, work, cap);
+            int ok = (p->type == 1) ? binson_parser_init_object(&tp, work + shift, len) : binson_parser_init_array(&tp, work + shift, len);
+            if (ok) { if (tp.type == 1) { ok = binson_parser_go_into_object(&tp); if (ok) { binson_write_object_begin(&tw); ok = transcribe_items(&tp, &tw, 1) && binson_parser_leave_object(&tp); if (ok) binson_write_object_end(&tw); } }
+                      else { ok = binson_parser_go_into_array(&tp); if (ok) { binson_write_array_begin(&tw); ok = transcribe_items(&tp, &tw, 0) && binson_parser_leave_array(&tp); if (ok) binson_write_array_end(&tw); } } }
+            fprintf(fout, "%d e%d we%d c%zu m", ok, (int)tp.error_flags, (int)tw.error_flags, binson_writer_get_counter(&tw));
+            /* beyond what the writer wrote the work buffer holds the (shifted) input, which a separate destination would not: show the written part only */
+            { size_t wn = binson_writer_get_counter(&tw); if (wn > cap) wn = cap; uint8_t *img = malloc(cap ? cap : 1); memset(img, 0xAA, cap); memcpy(img, work, wn); memout(fout, img, cap); free(img); }
+            fputc('\n', fout);
+            free(work); free(st); return;
+        }
+        free_w(k);
         size_t cap = (size_t)strtoull(arg[0], NULL, 10);
         wo->w = malloc(sizeof(binson_writer)); wo->cap = cap; wo->mem = malloc(cap ? cap : 1); memset(wo->mem, 0xAA, cap);
         binson_writer_init(wo->w, wo->mem, cap);
@@ -334,7 +394,7 @@ static uint64_t DBL[] = { 0, 0x8000000000000000ULL, 1,
 static uint64_t pick_dbl(void) { return chance(60) ? DBL[rn(sizeof DBL / sizeof *DBL)] : r64(); }
 static int big_ok;           /* allow long payloads in this document */
 static size_t pick_len(void) {
-    if (big_ok && chance(8)) { static const size_t L[] = { 126, 127, 128, 129, 255, 256, 32766, 32767, 32768, 32769, 40000, 65535, 65536, 70000 }; return L[rn(sizeof L / sizeof *L)]; }
+    if (big_ok && chance(8)) { static const size_t L[] = { 126, 127, 128, 129, 255, 256, 257, 300, 1000, 4095, 16384, 32766, 32767, 32768, 32769, 40000, 65535, 65536, 65537, 70000 }; return L[rn(sizeof L / sizeof *L)]; }
     return chance(85) ? rn(6) : rn(40);
 }
 static void put_blob(Buf *o, uint8_t base, const uint8_t *s, size_t n) {
@@ -380,7 +440,9 @@ static void gen_object_dense(Buf *o, int depth, int *budget) {
     put(o, hit(F_WRONGEND) ? 0x43 : 0x41);
 }
 static int dense_pct = 35;
+static void gen_wide(Buf *o, int obj);
 static void gen_object(Buf *o, int depth, int *budget) {
+    if (big_ok && depth <= 2 && chance(10)) { gen_wide(o, 1); return; }
     if (chance(dense_pct)) { gen_object_dense(o, depth, budget); return; }
     put(o, 0x40);
     int n = (int)rn(depth > 4 ? 2 : 5), idx = (int)rn(NNM / 2);
@@ -399,7 +461,18 @@ static void gen_object(Buf *o, int depth, int *budget) {
     put(o, hit(F_WRONGEND) ? 0x43 : 0x41);
     if (hit(F_EXTRAEND)) put(o, chance(50) ? 0x41 : 0x43);
 }
+/* many siblings: an object of 260..600 fields with generated ascending names (3-byte base-26 names), or an array of as many scalars */
+static void gen_wide(Buf *o, int obj) {
+    int n = 260 + (int)rn(340);
+    put(o, obj ? 0x40 : 0x42);
+    for (int i = 0; i < n; i++) {
+        if (obj) { uint8_t nm[3] = { (uint8_t)('a' + i / 676), (uint8_t)('a' + (i / 26) % 26), (uint8_t)('a' + i % 26) }; put_blob(o, 0x14, nm, 3); }
+        switch (rn(4)) { case 0: put(o, 0x44); break; case 1: put_int(o, 0x10, (int64_t)i - 300, width_k((int64_t)i - 300)); break; case 2: put_blob(o, 0x14, (const uint8_t *)"v", 1); break; default: put(o, 0x42); put(o, 0x43); break; }
+    }
+    put(o, obj ? 0x41 : 0x43);
+}
 static void gen_array(Buf *o, int depth, int *budget) {
+    if (big_ok && depth <= 2 && chance(10)) { gen_wide(o, 0); return; }
     put(o, 0x42);
     int n = (int)rn(depth > 4 ? 2 : 5);
     for (int i = 0; i < n && *budget > 0; i++) { (*budget)--; gen_value(o, depth + 1, budget); }
@@ -462,6 +535,20 @@ static void emit_field(int k, const char *op, const Name *nm, int ty) {
     if (op[0] == 'F') emit("@%d %s %s %d", k, o2, h, ty); else emit("@%d %s %s", k, o2, h);
     free(h);
 }
+static void emit_se(int k, const char *fallback, int fmax) {
+    binson_parser *p = P[k].p;
+    if (p && p->error_flags == BINSON_ERROR_NONE && p->current_state && binson_parser_get_type(p) == BINSON_TYPE_STRING && chance(60)) {
+        bbuf *b = binson_parser_get_string_bbuf(p);
+        if (b && b->bptr && b->bsize < 2000) {
+            size_t n = 0; while (n < b->bsize && b->bptr[n]) n++;      /* the C string the value starts with */
+            uint8_t tmp[2002]; memcpy(tmp, b->bptr, n);
+            if (chance(25)) tmp[n++] = 'x';                            /* one byte longer */
+            else if (n > 0 && chance(15)) n--;                         /* one byte shorter */
+            char *h = hexs(tmp, n); emit("@%d se %s", k, h); free(h); return;
+        }
+    }
+    char *h = hexs((const uint8_t *)fallback, rn((uint32_t)fmax + 1)); emit("@%d se %s", k, h); free(h);
+}
 static const char *GETTERS[] = { "gt", "gD", "gs", "gy", "gi", "gb", "gd", "gn" };
 static void emit_getters(int k, int with_name) {
     for (int i = 0; i < 7 + (with_name ? 1 : 0); i++) emit("@%d %s", k, GETTERS[i]);
@@ -490,7 +577,7 @@ static void nav_ops(int k, int arr, int maxops, int finish, int all_getters, int
         if (steps > maxops) x = (pending && chance(30)) ? 65 : 95;           /* wrap up */
         int advanced = 0;
         if (x < 50) { emit("@%d n", k); advanced = 1; }
-        else if (x < 60) { if (top == 'o' && lookups) { emit_field(k, (!ensure || chance(80)) ? "f" : "F", pick_name(), 1 + (int)rn(9)); advanced = 1; } }
+        else if (x < 60) { if (top == 'o' && lookups) { emit_field(k, (!ensure || chance(80)) ? "f" : "F", pick_name(), (int)rn(10)); advanced = 1; } }
         else if (x < 72) {
             if (pending && sp < 590) {
                 int t = (int)binson_parser_get_type(p);
@@ -502,7 +589,7 @@ static void nav_ops(int k, int arr, int maxops, int finish, int all_getters, int
         else if (x < 78) { if (pending) { emit("@%d gr", k); pending = 0; if (!last_ret) return; } }
         else if (x < 80) { if (pending && W[k].w) { emit("@%d p2w", k); pending = 0; if (!last_ret) return; } }
         else if (x < 84) { const char *g = GETTERS[rn(top == 'o' ? 8 : 7)]; if (!strcmp(g, "gn") && !(p->current_state && p->current_state->current_name.bptr)) g = "gt"; emit("@%d %s", k, g); }
-        else if (x < 86) { char *h = hexs((const uint8_t *)"abc", rn(4)); emit("@%d se %s", k, h); free(h); }
+        else if (x < 86) { emit_se(k, "abc", 3); }
         else if (x < 88) { if (pending && ensure) { emit("@%d N %d", k, (int)binson_parser_get_type(p)); } }   /* not protocol: next_ensure skips the pending one */
         else { emit("@%d %s", k, top == 'o' ? "lo" : "la"); if (!last_ret) return; sp--; pending = 0; }
         if (x >= 86 && x < 88 && ensure) { advanced = pending; }
@@ -527,7 +614,7 @@ static void walk_ops(int k, int arr) {
         if (p->error_flags) return;
         if (!last_ret) { emit("@%d %s", k, stack[sp - 1] == 'o' ? "lo" : "la"); if (!last_ret) return; sp--; continue; }
         emit_getters(k, stack[sp - 1] == 'o');
-        if (chance(30)) { char *h = hexs((const uint8_t *)"abca", rn(5)); emit("@%d se %s", k, h); free(h); }
+        if (chance(30)) emit_se(k, "abca", 4);
         int t = (int)binson_parser_get_type(p);
         if ((t == BINSON_TYPE_OBJECT || t == BINSON_TYPE_ARRAY) && sp < 590) {
             emit("@%d %s", k, t == BINSON_TYPE_OBJECT ? "io" : "ia"); if (!last_ret) return; stack[sp++] = t == BINSON_TYPE_OBJECT ? 'o' : 'a';
@@ -546,7 +633,7 @@ static void any_op(int k) {
         if (p->error_flags == BINSON_ERROR_NONE && !(p->current_state->flags & 3)) { emit("@%d gt", k); return; }
         emit_field(k, op, pick_name(), (int)rn(10));
     }
-    else if (!strcmp(op, "se")) { char *h = hexs((const uint8_t *)"abc", rn(4)); emit("@%d se %s", k, h); free(h); }
+    else if (!strcmp(op, "se")) emit_se(k, "abc", 3);
     else if (!strcmp(op, "ts")) { if (chance(30)) { if (chance(50)) emit("@%d ts NULL", k); else emit("@%d ts NULL %u", k, 1 + rn(300)); } else emit("@%d ts %u", k, rn(chance(50) ? 8 : 120)); }
     else emit("@%d %s", k, op);
 }
@@ -555,6 +642,7 @@ static Buf D;
 static void case_begin(long id) { emit("C %ld", id); }
 
 static void gen_verify(long id) {
+    if (id % 2999 == 5) { case_begin(id); new_parser(0, 2); emit("@0 tq %u", 524288u); return; }   /* C16: time class of to_string on a large bytes value */
     int arr = chance(25); int fault = chance(55);
     gen_doc(&D, arr, fault, 2 + (int)rn(14));
     case_begin(id); new_parser(0, pick_md()); init_doc(0, arr, &D); emit("@0 v");
@@ -562,18 +650,30 @@ static void gen_verify(long id) {
     if (chance(10)) { emit("@0 n"); emit("@0 v"); }
 }
 static void gen_longname_doc(Buf *o, int arr);
+/* the smallest max_depth at which verify accepts the document (0 if none up to 40): arrays need no state entry,
+   so a parser with exactly this depth walks arrays with no slack at all */
+static int tight_md(Buf *d, int arr) {
+    for (int md = 1; md <= 40; md++) {
+        binson_parser p; binson_state *st = calloc((size_t)md, sizeof *st); memset(&p, 0, sizeof p); p.state = st; p.max_depth = (uint_fast8_t)md;
+        uint8_t *ex = malloc(d->n ? d->n : 1); memcpy(ex, d->b, d->n);
+        int ok = (arr ? binson_parser_init_array(&p, ex, d->n) : binson_parser_init_object(&p, ex, d->n)) && binson_parser_verify(&p);
+        free(ex); free(st); if (ok) return md;
+    }
+    return 0;
+}
+static int nav_md(Buf *d, int arr) { int t = chance(35) ? tight_md(d, arr) : 0; return t ? t : (chance(80) ? 16 : 255); }
 static void gen_nav(long id, int all_getters) {
     int arr = chance(25);
     cont_bias = 45; gen_doc(&D, arr, 0, 3 + (int)rn(16)); cont_bias = 35;
     if (chance(4)) gen_longname_doc(&D, arr);
-    case_begin(id); new_parser(0, chance(80) ? 16 : 255); init_doc(0, arr, &D);
+    case_begin(id); new_parser(0, nav_md(&D, arr)); init_doc(0, arr, &D);
     if (chance(20)) emit("@0 W %u", 20 + rn(200));
     nav_ops(0, arr, 4 + (int)rn(40), chance(50), all_getters, 1, 1);
 }
 static void gen_walk(long id) {
     int arr = chance(25);
     gen_doc(&D, arr, 0, 3 + (int)rn(20));
-    case_begin(id); new_parser(0, chance(80) ? 16 : 255); init_doc(0, arr, &D); walk_ops(0, arr);
+    case_begin(id); new_parser(0, nav_md(&D, arr)); init_doc(0, arr, &D); walk_ops(0, arr);
 }
 static void gen_any(long id) {
     case_begin(id);
@@ -624,7 +724,9 @@ static void gen_print(long id, int thorough) {
     if (thorough || need < 60) { for (size_t c = 0; c <= need + 2; c++) emit("@0 ts %zu", c); }
     else { for (int i = 0; i < 12; i++) emit("@0 ts %zu", (size_t)rn((uint32_t)need + 3)); emit("@0 ts %zu", need); emit("@0 ts %zu", need - 1); emit("@0 ts %zu", need + 1); }
     if (chance(20)) emit("@0 ts %u %u", 10 + rn(20), rn(10));   /* claimed size smaller than the block */
-    if (chance(30)) emit("@0 ts NULL %zu", chance(50) ? need : (size_t)(1 + rn(5000)));   /* size query reusing a variable that still holds an old size */
+    if (chance(30)) emit("@0 ts NULL %zu", chance(50) ? need : (size_t)(1 + rn(5000)));
+    if (id % 499 == 7) emit("@0 tsH");     /* a capacity beyond INT_MAX */
+    if (id % 1999 == 3) emit("@0 tq %u", 524288u);   /* linear-time class of rendering one large bytes value (512 KiB vs 2 MiB) */   /* size query reusing a variable that still holds an old size */
 }
 /* writer sequences */
 static void emit_wvalue(int k, int depth, int *budget, int wellformed);
@@ -640,6 +742,7 @@ static void emit_wobject(int k, int depth, int *budget) {
         int nul = 0; for (int j = 0; j < nm->n; j++) if (!nm->s[j]) nul = 1;
         emit("@%d %s %s", k, (!nul && chance(40)) ? "wn" : "ws", h); free(h);
         emit_wvalue(k, depth + 1, budget, 1); idx += 1 + (int)rn(3);
+        if (depth == 0 && chance(6) && W[k].w && !W[k].isnull && W[k].w->buffer_used <= W[k].cap) emit("@%d wv", k);   /* verify asked too early: false, and nothing else changes */
     }
     emit("@%d woe", k);
 }
@@ -689,9 +792,21 @@ static void gen_writer(long id, int thorough) {
     /* lines[0] is the W line; re-emit the rest at chosen capacities on writer @0 */
     int ncap = thorough ? 0 : 5;
     size_t caps[8]; caps[0] = total; caps[1] = total ? total - 1 : 0; caps[2] = 0; caps[3] = total + 2; caps[4] = total ? rn((uint32_t)total) : 1;
-    if (thorough && total <= 300) { for (size_t c = 0; c <= total + 2; c++) { emit("@0 W %zu", c); for (int i = 1; i < nl; i++) { char b[1 << 18]; snprintf(b, sizeof b, "@0%s", lines[i] + 2); emit("%s", b); if (chance(25) || w_err_edge(0)) emit("@0 dump"); } emit("@0 dump"); if (wellformed) emit("@0 wv"); } }
+    if (thorough && total <= 300) { for (size_t c = 0; c <= total + 2; c++) { emit("@0 W %zu", c); for (int i = 1; i < nl; i++) { char b[1 << 18]; snprintf(b, sizeof b, "@0%s", lines[i] + 2); emit("%s", b); if (chance(25) || w_err_edge(0)) emit("@0 dump"); } emit("@0 dump"); if (wellformed) { emit("@0 wv"); if (chance(10)) { emit("@0 wb 1"); emit("@0 dump"); emit("@0 wc"); } } } }
     else { if (thorough) ncap = 5; for (int j = 0; j < ncap; j++) { emit("@0 W %zu", caps[j]); for (int i = 1; i < nl; i++) { char b[1 << 18]; snprintf(b, sizeof b, "@0%s", lines[i] + 2); emit("%s", b); if (chance(10) || w_err_edge(0)) emit("@0 dump"); } emit("@0 dump"); if (wellformed) emit("@0 wv"); } }
     if (chance(10)) { emit("@0 W NULL"); emit("@0 wb 1"); emit("@0 wx"); }
+    if (chance(10)) {   /* copy a document that sits in the destination itself a few bytes further (overlapping source and destination) */
+        unsigned cap = 24 + rn(40); emit("@0 W %u", cap); emit("@0 wob"); emit("@0 wn 61"); emit("@0 wi %lld", (long long)pick_int()); emit("@0 wn 62"); emit("@0 ws 68656c6c6f"); emit("@0 woe"); emit("@0 dump");
+        size_t used = binson_writer_get_counter(W[0].w); if (used <= cap && used >= 4) {
+            switch (rn(4)) {
+            case 0: emit("@0 wrA %u %zu", rn(3), used - rn(3)); break;                                   /* the whole document, again */
+            case 1: { unsigned kk = 1 + rn(4); emit("@0 wrA %zu %u", used - kk, 2 * kk); } break;          /* source overlaps the destination from below (dst > src) */
+            case 2: { unsigned kk = 1 + rn(4); if (used + kk + 6 <= cap) emit("@0 wrA %zu %u", used + kk, 6u); } break;   /* from above (dst < src) */
+            default: emit("@0 wrA %zu %u", used / 2, 1 + rn(6)); break;
+            }
+            emit("@0 dump");
+        }
+    }
     if (chance(10)) {   /* a NULL argument as the very first call (counter still 0), then reset: must come back like a fresh writer */
         emit("@0 W %u", 2 + rn(30)); if (chance(50)) emit("@0 wnN"); else emit("@0 wrN %u", rn(9)); emit("@0 dump"); emit("@0 wx"); emit("@0 wob"); emit("@0 wb 1"); emit("@0 woe"); emit("@0 dump");
     }
@@ -714,6 +829,14 @@ static void gen_rt(long id) {
 static void gen_tr(long id) {
     int arr = chance(25);
     gen_doc(&D, arr, chance(10), 3 + (int)rn(20));
+    if (chance(6)) {   /* a document with ONE field per object level (so that nothing the parser still needs is overwritten) for the in-place transcription */
+        arr = 0; D.n = 0; fault_kind = F_NONE; put(&D, 0x40); put_blob(&D, 0x14, (const uint8_t *)"a", 1);
+        switch (rn(3)) { case 0: { size_t n = 20 + rn(300); uint8_t *pl = malloc(n); memset(pl, 'q', n); put_blob(&D, chance(50) ? 0x14 : 0x18, pl, n); free(pl); } break;
+                         case 1: put(&D, 0x42); for (int i = 0; i < 12; i++) put_int(&D, 0x10, 1000 + i, 1); put(&D, 0x43); break;
+                         default: put(&D, 0x40); put_blob(&D, 0x14, (const uint8_t *)"k", 1); put_blob(&D, 0x14, (const uint8_t *)"a long enough value to overlap", 30); put(&D, 0x41); break; }
+        put(&D, 0x41);
+        case_begin(id); new_parser(0, 16); init_doc(0, arr, &D); emit("@0 v"); emit("@0 tr %zu O%u", D.n, 1 + rn(12)); return;
+    }
     case_begin(id); new_parser(0, 16); init_doc(0, arr, &D); emit("@0 v"); emit("@0 tr %zu", D.n); if (chance(20)) emit("@0 tr %zu", D.n + 3);
 }
 /* reuse (C12): previous use then a new document on the same object, and on a fresh one */
@@ -916,7 +1039,7 @@ int main(int argc, char **argv) {
             if (chance(4)) D.n = rn(3);
             if (chance(2)) { D.n = 0; gen_deep(&D, 8 + (int)rn(5), 0); }
             char *h = hexs(D.b, D.n);
-            fprintf(o, "C %ld\nxd%d %d %s\n", id, 1 + (int)rn(5), chance(50) ? 0 : 200, h); free(h);
+            fprintf(o, "C %ld\nxd%d%s %d %s\n", id, 1 + (int)rn(5), chance(40) ? "p" : "", chance(50) ? 0 : 200, h); free(h);
         }
         fclose(o); return 0;
     }
